@@ -163,7 +163,7 @@ func genC03(engine string) func(t *rapid.T) c03Case {
 			depth, batch = d[0], d[1]
 		} else {
 			if mode == "insertion" {
-				depth = pick(t, "depth", 1, 2, 3, 8, 16, 32, rapid.IntRange(1, 32).Draw(t, "depth_any"))
+				depth = pick(t, "depth", 1, 2, 3, 8, 16, 32, 33, 40, rapid.IntRange(1, 32).Draw(t, "depth_any"))
 				batch = pick(t, "batch", 1, 2, 3, 4, 8)
 			} else {
 				depth = pick(t, "depth", 1, 2, 3, 8, 16, 31, rapid.IntRange(1, 31).Draw(t, "depth_any"))
@@ -173,6 +173,18 @@ func genC03(engine string) func(t *rapid.T) c03Case {
 		h := genHistory(t, depth, 10)
 		c := c03Case{Mode: mode, Engine: engine}
 		var fields []packField
+		if mode == "insertion" && depth > 32 && rapid.Bool().Draw(t, "high_start") {
+			// a tree deeper than 32 levels: a relation-valid insertion at a leaf >= 2^32, which the uint32 of the packing cannot name
+			start := uint64(1)<<32 + uint64(rapid.IntRange(0, 1000).Draw(t, "high_off"))
+			ids := make([]*big.Int, batch)
+			for i := range ids {
+				ids[i] = genCommitment(t, "hid", ids[:i])
+			}
+			c.Ins = buildValidInsertion(h.Tree.Clone(), start, ids)
+			fields = insFields(c.Ins)
+			c.Kind, c.Public = "start>=2^32-low-bits-hash", packRaw(fields) // the hash of the packing with the low 32 bits of the start index
+			return c
+		}
 		if mode == "insertion" {
 			c.Ins = genValidInsertion(t, h, batch)
 			if c.Ins == nil { // full small tree: empty the tree and insert at 0
@@ -308,6 +320,9 @@ func runC03(c c03Case) Result {
 	}
 	canonical := packRaw(fields)
 	bound := c.Public.Cmp(canonical) == 0
+	if c.Mode == "insertion" && c.Ins.Start.Cmp(pow32) >= 0 {
+		bound = false // no uint32 names this start index: no public input is the hash of this batch's packing
+	}
 	nbytes := 0
 	for _, f := range fields {
 		nbytes += f.W
